@@ -254,6 +254,10 @@ func runHistory(spec *SeqSpec, hist []SeqEvent) *SeqRun {
 		vtime.ResetClock()
 		vsched.SetDaemonYield(true)
 		vsched.SetShadow(true)
+		vsched.MapYieldKind = 0
+		if spec.LogEstimates {
+			vsched.MapYieldKind = evMapYield
+		}
 		if spec.Cfg.MapOrder == "rot" {
 			vsched.SetMapOrder(func(n int) int { return n })
 		} else if spec.Cfg.MapOrder == "perm" {
